@@ -311,6 +311,36 @@ def table_atomic_update(R, cfg, b):
     fm = [c for c in b.calls() if c.callee and c.callee.best == 'entry::AtomicReloadId::fetch_max']
     cmps = find_cmp(b)
     others = [c for c in b.calls() if c not in fm and c not in cmps and not c.exp]
+    raw = [c for c in b.calls() if c.callee and c.callee.name == 'fetch_max' and 'atomic::Atomic' in c.callee.best and 'usize' in c.callee.best]
+    if not fm and not cmps and len(raw) == 1 and len(b.calls()) == 1:
+        # the same thing on the raw integers: `new.0 > self.0.fetch_max(new.0, AcqRel)` (ReloadId derives its order from its field)
+        import common
+        f = raw[0]
+        ordv = enum_variant_of(b, f.args[2]) if len(f.args) > 2 else set()
+        ok = common.strip_refs(common.arg_path(f, 0)) == ['arg1', '0'] and common.strip_refs(common.arg_path(f, 1)) == ['arg2', '0'] and len(ordv) == 1 and ordv <= {'AcqRel', 'SeqCst'}
+        R.check(ok, cfg, b.path, 'fetch_max(self,new)', 'fetch_max must be applied to self with the offered id (AcqRel); got %s, %s, %s'
+                % (common.arg_path(f, 0), common.arg_path(f, 1), sorted(ordv)), f.loc())
+        rets = [(bb, st) for bb, _, st in b.assigns() if st['place']['l'] == 0 and not st['place']['p']]
+        bins = [(bb, st) for bb, _, st in b.assigns() if st['rv']['k'] == 'binop' and st['rv']['op'] in ('Gt', 'Lt', 'Ge', 'Le')]
+        if len(bins) != 1 or len(rets) != 1 or not (rets[0][1] is bins[0][1] or (rets[0][1]['rv']['k'] == 'use' and b.access_path(rets[0][1]['rv']['op']) == ['binop@bb%d.%d' % (bins[0][0], b.blocks[bins[0][0]]['stmts'].index(bins[0][1]))])):
+            R.bad(cfg, b.path, 'shape', 'AtomicReloadId::update must return one comparison of the offered id with the previous value', b.loc())
+            return
+        rv = bins[0][1]['rv']
+        pa, pb = common.strip_refs(common.deep_path(b, rv['a'], at=bins[0][0])), common.strip_refs(common.deep_path(b, rv['b'], at=bins[0][0]))
+        prev = ['call@bb%d' % f.bb]
+        if (pa, pb) == (['arg2', '0'], prev):
+            swapped = False
+        elif (pa, pb) == (prev, ['arg2', '0']):
+            swapped = True
+        else:
+            R.bad(cfg, b.path, 'comparison-operands', 'must compare the offered id with the PREVIOUS value returned by fetch_max; operands %s, %s' % (pa, pb), b.loc())
+            return
+        name = {'Gt': 'gt', 'Lt': 'lt', 'Ge': 'ge', 'Le': 'le'}[rv['op']]
+        for rel in RELS:
+            ret = cmp_eval(name, swapped, rel)
+            R.check(ret == (rel == '>'), cfg, b.path, 'row new%sprev' % rel, 'for new%sprev: returned %s, want %s' % (rel, ret, rel == '>'), b.loc(),
+                    row={'rel': rel, 'cmp': name, 'swapped': swapped, 'returned': ret})
+        return
     if len(fm) != 1 or len(cmps) != 1 or others:
         R.bad(cfg, b.path, 'shape', 'AtomicReloadId::update must be one fetch_max and one comparison; found calls %s'
               % [x.callee.best if x.callee else '?' for x in b.calls()], b.loc())
